@@ -185,11 +185,19 @@ def fit(spec, X, n_inputs, episode_feature):
     """Fit the real estimator. A `pipe` spec at top level uses fit_transformers (no regressor needed);
     nested pipes carry a DataRegressor because fit_transform calls fit."""
     est = build(spec)
+    n_inputs, episode_feature = arg_forms(spec, n_inputs, episode_feature)
     if spec['k'] == 'pipe':
         est.fit_transformers(X, n_inputs=n_inputs, episode_feature=episode_feature)
     else:
         est.fit(X, n_inputs=n_inputs, episode_feature=episode_feature)
     return est
+
+
+def arg_forms(spec, n_inputs, episode_feature):
+    """fit arguments in another valid form: numpy integer / numpy bool (what a reduction such as `X[:, 0].max() > 0`
+    or `mask.sum()` returns)"""
+    f = _pform(spec)
+    return [int(n_inputs), np.int64(n_inputs), int(n_inputs)][f], [bool(episode_feature), np.bool_(episode_feature), bool(episode_feature)][(f + 1) % 3]
 
 
 def walk(spec, est, out=None):
@@ -370,6 +378,11 @@ def gen_layout(rng, min_len, n_eps=None, extra=4, ep=True):
         return [(0, n)], [(0, t) for t in range(n)]
     n_eps = n_eps or rng.randint(1, 4)
     labels = rng.sample(range(0, 9), n_eps)
+    if rng.random() < 0.15:
+        # labels are arbitrary non-negative integers: run numbers, identifiers, time stamps
+        big = rng.choice([65536, 70000, 10 ** 6])
+        keep_small = rng.random() < 0.5        # mixed small and large labels, or all large
+        labels = [l if (keep_small and j == 0) else l + big * rng.randint(1, 3) for j, l in enumerate(labels)]
     eps = [(l, min_len + rng.randint(0, extra)) for l in labels]
     style = rng.choice(['blocks', 'blocks', 'interleaved'])
     if style == 'blocks':
